@@ -19,6 +19,7 @@
 #include <vector>
 #include <functional>
 #include <limits>
+#include <new>
 #include <climits>
 #include <atomic>
 #include <chrono>
@@ -113,6 +114,34 @@ namespace vf
         return h;
     }
     inline uint64_t hmix(uint64_t h, uint64_t v) { return splitmix(h ^ splitmix(v)); }
+
+    // A replica-specific heap history (the driver sets VERIF_REPLICA): blocks of the sizes planners use are allocated and a
+    // replica-dependent subset is freed before the library is touched, so that the holes later allocations fall into - and with
+    // them the RELATIVE order and spacing of tree nodes in memory - differ between the processes that are compared. A uniform
+    // shift of the heap (ASLR) leaves every pointer comparison and every pointer-hash collision pattern unchanged; this does not.
+    // Effective under glibc's allocator (plain variant); ASan's allocator does not reuse freed chunks soon.
+    inline void perturbHeapHistory()
+    {
+        const char *rep = getenv("VERIF_REPLICA");
+        long r = rep ? atol(rep) : 0;
+        if (r <= 0) return;
+        uint64_t st = splitmix(0x4ea9ULL * (uint64_t)(r + 1));
+        static std::vector<void *> keep;   // stays allocated for the life of the process
+        std::vector<void *> blocks;
+        static const size_t SZ[] = {16, 24, 32, 40, 48, 56, 64, 72, 80, 96, 112, 128, 160, 192, 256, 384, 512, 1024};
+        const long n = 3000 + 1500 * r;
+        for (long i = 0; i < n; ++i)
+        {
+            st = splitmix(st);
+            blocks.push_back(::operator new(SZ[st % (sizeof SZ / sizeof SZ[0])]));
+        }
+        for (void *p : blocks)
+        {
+            st = splitmix(st);
+            if (st % 3 == 0) keep.push_back(p);
+            else ::operator delete(p);
+        }
+    }
     inline uint64_t hmixd(uint64_t h, double d)
     {
         uint64_t u;
